@@ -14,6 +14,17 @@ def run(rep, tier):
     wd = common.workdir("C16")
     quick = tier == "quick"
     nprog = 600 if quick else 6000
+    # design level: over every program of a small instruction set the metadata algebra keeps log_delta + log_budget within the
+    # stored bits (exhaustive, value model hidden by a VIEW); negative control: an addition keeping the LARGER budget must be refuted
+    r0 = common.tlc("Ckks/MC_Ckks", cfg="Ckks/MC_Ckks_quick" if quick else "Ckks/MC_Ckks", workers=8, wd=wd, timeout=3600)
+    common.tlc_must(r0, "MC_Ckks")
+    rep.add_tlc(r0, "MC_Ckks")
+    if not r0.ok:
+        rep.violation("spec:MC_Ckks:" + str(r0.invariant), "invariant %s of MC_Ckks fails in the specification" % r0.invariant, {"tlc": r0.out[-3000:]})
+        return
+    rn = common.tlc("Ckks/MC_Ckks", cfg="Ckks/MC_Ckks_neg", workers=8, wd=wd, timeout=3600)
+    if rn.ok or rn.invariant != "FitsInv":
+        raise ToolError("MC_Ckks negative control was not refuted:\n" + rn.out[-1500:])
     common.build_harness()
     events, bad = [], []
     ops = {}
